@@ -43,6 +43,89 @@ def cases(tier, r):
     yield 'random', {'p': 'argstore', 'sig': sig, 'args': args, 'kwargs': kwargs, 'ops': ops, 'ann': ann}
 
 
+  # stage C: direct edits made from frames with arbitrary file names (code compiled from a
+  # string, a notebook cell, user files whose names resemble Fiddle's): the recorded location
+  for _ in range(250 if tier == 'quick' else 4000):
+    yield 'stack', {'stack': True, 'files': [r.choice(FILE_POOL) for _ in range(r.randint(1, 3))],
+                    'pad': [r.randint(0, 6) for _ in range(3)], 'edit': r.choice(sorted(EDITS))}
+
+
+FILE_POOL = ['<string>', '<stdin>', '<ipython-input-7-5c1ab0>', '/work/exp/train.py', '/work/exp/my_config.py',
+             '/work/exp/config.py', '/work/configs/history.py', '/work/fiddle/auto_config.py',
+             '/work/_src/daglish.py', '<frozen runner>', '/work/exp/flags.py']
+EDITS = {
+    'setattr': 'cfg.p = v',
+    'delattr': 'del cfg.q',
+    'tagged_value': 'cfg.p = tv',        # a TaggedValue made beforehand (it has a history of its own)
+    'assign': 'fdl.assign(cfg, p=v, q=v)',
+    'construct': 'out.append(fdl.Config(fn, p=v))',
+    'construct_partial': 'out.append(fdl.Partial(fn, v, q=v))',
+    'update_callable': 'fdl.update_callable(cfg, fn2)',
+    'materialize': 'materialize.materialize_defaults(cfg)',
+    'copy_with': 'out.append(fdl.copy_with(cfg, p=v))',
+    'setitem': 'cfg[0] = v',
+}
+
+
+def run_stack(case):
+  """Performs one direct edit from a chain of generated frames; returns the locations recorded
+  for the new history entries and the real stack seen by the location provider."""
+  import sys
+  from fiddle._src import materialize
+  fn = targets.make_fn([['p', 'pk', True], ['q', 'pk', True]])
+  fn2 = targets.make_fn([['p', 'pk', True], ['q', 'pk', True], ['r', 'pk', True]])
+  cfg = fdl.Config(fn, q=targets.Tok(1))
+  out = []
+  ns = {'fdl': fdl, 'materialize': materialize, 'tv': targets.TAGS[0].new(targets.Tok(3)), 'fn': fn,
+        'fn2': fn2, 'out': out}
+  files, pad = case['files'], case['pad']
+  src = '\n' * pad[0] + 'def edit(cfg, v):\n  ' + EDITS[case['edit']] + '\n'
+  exec(compile(src, files[0], 'exec'), ns)
+  call = ns['edit']
+  edit_line = pad[0] + 2
+  for i, f in enumerate(files[1:], 1):
+    lsrc = '\n' * pad[i] + f'def level{i}(inner, cfg, v):\n  return inner(cfg, v)\n'
+    lns = {}
+    exec(compile(lsrc, f, 'exec'), lns)
+    call = (lambda lv, inner: (lambda cfg, v: lv(inner, cfg, v)))(lns[f'level{i}'], call)
+  stacks = []
+
+  def prof(frame, event, arg):
+    if event == 'call' and frame.f_code.co_name == '_stacktrace_location_provider':
+      st, f = [], frame
+      while f is not None and len(st) < 30:
+        st.append([f.f_code.co_filename, f.f_lineno, f.f_code.co_name])
+        f = f.f_back
+      stacks.append(st)
+  before = {id(e) for es in cfg.__argument_history__.values() for e in es}
+  sys.setprofile(prof)
+  try:
+    call(cfg, targets.Tok(2))
+  finally:
+    sys.setprofile(None)
+  target = out[0] if out else cfg
+  entries = sorted((e for es in target.__argument_history__.values() for e in es if id(e) not in before),
+                   key=lambda e: e.sequence_id)
+  if case['edit'] == 'copy_with':
+    # the copy carries the original's entries (deep-copied); its new ones are the last
+    entries = entries[-1:]
+    stacks = stacks[-1:]
+  return {'stack': True, 'edit_site': [files[0], edit_line, 'edit'],
+          'locs': [[e.location.filename, e.location.line_number, e.location.function_name] for e in entries],
+          'stacks': stacks}
+
+
+def stack_oracle(case, real):
+  if not real['locs']:
+    return {'what': 'the edit recorded no history entry', 'edit': case['edit']}
+  for loc in real['locs']:
+    if loc != real['edit_site']:
+      return {'what': "a direct edit is not attributed to the caller's source location",
+              'edit': EDITS[case['edit']], 'caller': real['edit_site'], 'recorded': loc,
+              'frames': case['files']}
+  return None
+
+
 def widen(tier, r):
   for _ in range(15000):
     sig = argstore.random_sig(r)
@@ -53,6 +136,12 @@ def widen(tier, r):
 
 
 def execute(case):
+  if case.get('stack'):
+    real = run_stack(case)
+    # the model runs on the real stack of the LAST entry's provider call (line numbers of the
+    # function's own frame differ per call; one representative is enough)
+    frames = [[f, ln] for f, ln, _ in (real['stacks'][-1] if real['stacks'] else [])]
+    return real, {'p': 'locate', 'frames': frames}
   real, cfg = argstore.run_real(case, with_build=True)
   if cfg is not None:
     # history never influences equality or building: compare with a history-erased copy
@@ -69,6 +158,13 @@ def execute(case):
 
 
 def compare(real, model):
+  if real.get('stack'):
+    if len(real['stacks']) != len(real['locs']):
+      return [('stack', 'provider calls vs entries', len(real['stacks']), len(real['locs']))]
+    if not real['locs']:
+      return []
+    got = real['locs'][-1][:2]
+    return [] if model.get('located') == got else [('stack', 'located', got, model.get('located'))]
   return argstore.diff_fields(real, model, FIELDS)
 
 
@@ -107,6 +203,8 @@ def check_state(state):
 
 
 def oracle(case, real):
+  if case.get('stack'):
+    return stack_oracle(case, real)
   if real['init'] == 'err':
     return None
   for i, s in enumerate(real['steps']):
@@ -180,6 +278,8 @@ def classify(case, fail):
 
 
 def nontrivial(case, real):
+  if case.get('stack'):
+    return ('stack', case['edit'], tuple(case['files']))
   if real['init'] == 'err' or not real['steps']:
     return None
   last = real['steps'][-1]['state']
@@ -247,7 +347,7 @@ def run(tier):
   return family.run_check(
       'C16', tier, lean_module='C16', cases=cases, execute=execute, compare=compare,
       oracle=oracle_with_threads, classify=classify, nontrivial=nontrivial, widen=widen,
-      normalise_model=argstore.norm_model, time_budget=150 if tier == 'quick' else 1500,
+      normalise_model=lambda m: argstore.norm_model(m) if 'init' in m else m, time_budget=150 if tier == 'quick' else 1500,
       extra_coverage=extra,
       level_note=['update_callable / copy_with / assign are exercised by the oracle only through '
                   'their constituent setattr edits', 'absolute sequence ids are not compared with '
